@@ -86,6 +86,7 @@ def run(ctx):
     s.cholesky_axis_complete(("_calc_energy",))
     s.estimator_sees_the_trial("energy")
     s.rhf_restricted_vs_unrestricted("energy")
+    s.exchange_within_one_spin()
     s.cisd_vs_faster()
     s.noci_vs_uhf()
     s.uhf_spin_symmetry("_calc_energy")
